@@ -75,7 +75,17 @@ fn expr_level(model: &str) -> String {
     let toks: Vec<&str> = model.split(' ').collect();
     for (i, t) in toks.iter().enumerate() {
         let opens = t.chars().take_while(|c| *c == '(').count();
-        if opens == 0 { continue; }
+        if opens == 0 {
+            // an atom in argument position is a variable: `parse_expr` refuses names with the reserved prefix `@`
+            // and replaces the wildcard `_` by a fresh name (expression level, not the reader)
+            if t.starts_with("A<") {
+                let body = t.trim_start_matches("A<").trim_end_matches(|c| c == '>' || c == ')');
+                let text: String = body.split(',').filter_map(|x| x.parse::<u32>().ok()).filter_map(char::from_u32).collect();
+                if text.starts_with('@') { return "error".into(); }
+                if text == "_" { return "skip".into(); }
+            }
+            continue;
+        }
         let head = &t[opens..];
         if opens > 1 { return "error".into(); }                 // list in head position
         if head == ")" || head.is_empty() { if *t == "()" { continue; } return "error".into(); }
@@ -115,7 +125,9 @@ fn readers(rep: &mut Report, rng: &mut Rng, n: usize) {
         if *mutated { rep.count("mutated_texts", 1); if real == "error" { rep.count("mutated_rejected", 1); } }
         if text.contains('"') && real != "error" { rep.note_nontrivial(&("tree", text)); }
         // `()` is Unit for the real reader; the model prints an empty list the same way
-        if expr_level(&model[i]) != real {
+        let want = expr_level(&model[i]);
+        if want == "skip" { rep.count("texts_with_wildcard_skipped", 1); continue; }
+        if want != real {
             rep.violate("correspondence", "c15-reader-model-mismatch", format!("real reader and Lean reader (theorems C15_tree / C15_string_token) differ on {text:?}: real `{real}`, model `{}`", model[i]), json!({"text": text}));
         }
     }
